@@ -21,6 +21,40 @@ import ClairModel.Proofs.Pep440
 namespace ClairModel.Props.C12
 open ClairModel ClairModel.Order
 
+/-! ## Tables regenerated from the sources (Gen/Versions.lean)
+
+  The Maven model reads the qualifier table directly (its theorems do not
+  depend on the values).  The PEP 440 and gem recognisers are written by hand
+  for one specific pattern each; these obligations say the patterns and
+  switch tables in the sources are still the ones the models stand for. -/
+
+/-- The pattern of pkg/pep440 is the one the recogniser `Pep440.findMatch` models. -/
+theorem pep440_pattern_expected :
+    Gen.Versions.pepPattern =
+      "v?(?:(?:(?P<epoch>[0-9]+)!)?(?P<release>[0-9]+(?:\\.[0-9]+)*)(?P<pre>[-_\\.]?(?P<pre_l>(alpha|a|beta|b|c|rc|preview|pre))[-_\\.]?(?P<pre_n>[0-9]+)?)?(?P<post>(?:-(?P<post_n1>[0-9]+))|(?:[-_\\.]?(?P<post_l>post|rev|r)[-_\\.]?(?P<post_n2>[0-9]+)?))?(?P<dev>[-_\\.]?(?P<dev_l>dev)[-_\\.]?(?P<dev_n>[0-9]+)?)?)(?:\\+(?P<local>[a-z0-9]+(?:[-_\\.][a-z0-9]+)*))?" := rfl
+
+/-- Alternation order of the label groups, label normalisation of `Parse`,
+    label slot values and slot indices of `Version()` are the model's. -/
+theorem pep440_tables_expected :
+    Gen.Versions.pepPreAlts = Pep440.preAlts ∧ Gen.Versions.pepPostAlts = Pep440.postAlts ∧
+    Gen.Versions.pepDevAlts = Pep440.devAlts ∧
+    (∀ p ∈ Gen.Versions.pepLabelNorm, Pep440.normLabel p.1 = some p.2) ∧
+    (∀ l ∈ Pep440.preAlts, (Gen.Versions.pepLabelNorm.find? fun p => p.1 = l).isSome = true) ∧
+    (∀ p ∈ Gen.Versions.pepLabelSlot, Pep440.labelSlot p.1 = p.2) ∧
+    Gen.Versions.pepLabelSlot.length = 3 ∧
+    Gen.Versions.pepSlots = [0, 1, 6, 7, 8, 9] := by
+  decide
+
+/-- The pattern of ruby/version.go is the one the recogniser `Gem.valid` models. -/
+theorem gem_pattern_expected :
+    Gen.Versions.gemPattern = "^\\s*([0-9]+(\\.[0-9a-zA-Z]+)*(-[0-9A-Za-z-]+(\\.[0-9A-Za-z-]+)*)?)?\\s*$" := rfl
+
+/-- Known Maven qualifiers are single entries: the table has no duplicate
+    key, so `ordString` does not depend on the order of the map literal. -/
+theorem maven_qualifiers_nodup :
+    (Gen.Versions.mavenQualifiers.map (·.1)).Nodup := by
+  decide
+
 /-! ## claircore.Version (version.go) -/
 
 /-- `(*Version).Compare` is a total preorder on all versions (any kinds, any
@@ -159,6 +193,21 @@ theorem gem_equal_interchangeable (a b x : List Gem.Seg) (h : Gem.cmp a b = .eq)
 theorem gem_trailing_zero_equal (l : List Gem.Seg) (d : List Char) (h : d.all (· = '0') = true) :
     Gem.cmp (l ++ [.num d]) l = .eq :=
   lexCmpPad_append_pad Gem.zeroSeg Gem.segCmp_totalPre (.num d) (Gem.zero_seg_eq_pad d h) l
+
+/-- `canonicalize` drops a trailing zero segment: "1.2.0" and "1.2" have the
+    same canonical segments (for every segment list, prerelease or not). -/
+theorem gem_canonical_trailing_zero (l : List Gem.Seg) (z : Gem.Seg) (hz : z.isZero = true) :
+    Gem.canonSegs (l ++ [z]) = Gem.canonSegs l :=
+  Gem.canonSegs_append_zero l z hz
+
+/-- `canonicalize` drops a zero segment that stands directly before the first
+    letter of a prerelease version: "1.0.a" and "1.a" (more generally
+    `pre.0.a.rest` and `pre.a.rest` with `pre` numeric) have the same canonical
+    segments, hence compare equal. -/
+theorem gem_canonical_prerelease_zero (pre : List Gem.Seg) (hpre : ∀ s ∈ pre, s.isStr = false)
+    (z : Gem.Seg) (hz : z.isZero = true) (t : List Char) (rest : List Gem.Seg) :
+    Gem.canonSegs (pre ++ z :: .str t :: rest) = Gem.canonSegs (pre ++ .str t :: rest) :=
+  Gem.canonSegs_zero_before_str pre hpre z hz t rest
 
 /-! ## Maven (java/maven_version.go) -/
 
